@@ -1245,6 +1245,7 @@ static void run_script(const vj::Value& s, vj::Rng& r) {
       if (op.arr.size() > 7) for (int i = 0; i < 4; i++) o.num |= uint64_t(op[7][i].i()) << (16 * i);
       if (op.arr.size() > 8) o.flags = op[8].s();
       if (op.arr.size() > 9 && !op[9].s().empty()) o.conv = op[9].s()[0];
+      if (op.arr.size() > 10) w.arm = A(10) != 0;          // this operation runs with a failing heap request
       str_exec(w, o);
     }
   }
